@@ -560,7 +560,11 @@ def run_unusable_between(params, known):
                 ('unknown-first-octet', b'\x21\x00'), ('text-string', b'\x63abc'), ('transfer-item-too-short', C.dumps({2: [3, 6, 0]})),
                 ('transfer-item-not-a-list', C.dumps({2: 5})), ('offset-beyond-total', enc_segment(3, 6, 9, b'zz')),
                 ('segment-longer-than-total', enc_segment(3, 6, 4, b'zzzzzz')), ('other-total', enc_segment(3, 7, 0, b'zz')),
-                ('bpv6', b'\x06\x00\x00'), ('empty', b''), ('unknown-extension-key', C.dumps({99: 1})), ('negative-key', C.dumps({-1: [1]}))]
+                ('bpv6', b'\x06\x00\x00'), ('empty', b''), ('unknown-extension-key', C.dumps({99: 1})), ('negative-key', C.dumps({-1: [1]})),
+                # messages that concern nothing this agent has going on, alone and in FRONT of a usable message of the same datagram
+                ('unsolicited-path-mtu-confirmation', C.dumps({7: [12345, [0, 1]]})), ('unsolicited-confirmation+bundle', C.dumps({7: [12345, [0, 1]]}) + WHOLE),
+                ('confirmation-of-the-wrong-shape', C.dumps({7: 12345})),
+                ('ecn-counts-out-of-the-blue', C.dumps({8: [1, 2, 3]})), ('probe-of-unknown-shape', C.dumps({6: 'x'}))]
     for (uname, octets) in unusable:
         for pos in (0, 1, 2):
             count += 1
@@ -585,8 +589,73 @@ def run_unusable_between(params, known):
                 # not prescribed, only that nothing corrupt is queued
                 if any(g != data for g in got):
                     viol('corrupt-or-partial-bundle-queued', 'queued %r' % (got,), case)
-            elif got.count(data) != 1 or len(got) != 1:
+            elif got.count(data) != 1 or len([g for g in got if g != WHOLE]) != 1:
                 viol('each-segment-once-but-not-exactly-one-copy', 'queued %r' % (got,), case)
+            elif uname.endswith('+bundle') and got.count(WHOLE) != 1:
+                viol('message-behind-an-unusable-one-not-handled', 'the bundle message in the same datagram was not queued: %r' % (got,), case)
+    return dict(name=params['name'], evaluations=count, nontrivial_keys=sorted(keys), violations=violations, known=[], samples=[])
+
+
+def run_failed_request_then_good(params, known):
+    """A send request that cannot be carried out (the peer name does not resolve, the local address
+    cannot be used) among ordinary ones - queued before the loop runs, or one after the other: every
+    ordinary request is still emitted completely and reported finished."""
+    violations = []
+    kinds = set()
+    count = 0
+    keys = set()
+
+    def viol(kind, detail, case):
+        if kind in kinds:
+            return
+        kinds.add(kind)
+        v = Violation(PROP, 'sizing', kind, dict(), '%r: %s' % (case, detail)).as_dict()
+        v['case'] = case
+        violations.append(v)
+    bad_params = [('unresolvable-peer', {'address': 'no.such.host.invalid', 'port': 4556}),
+                  ('unusable-local-address', {'address': R_ADDR[0], 'port': R_ADDR[1], 'local_address': '203.0.113.250', 'local_port': 1}),
+                  ('address-empty', {'address': '', 'port': 4556})]
+    for (bname, bprm) in bad_params:
+        for pattern in ('bad,good', 'good,bad,good', 'bad,bad,good', 'good,bad,good,good'):
+            for spacing in ('back-to-back', 'one-after-the-other'):
+                for mtu in (None, 60):
+                    count += 1
+                    case = dict(failing_request=bname, requests=pattern, spacing=spacing, mtu=mtu)
+                    world = UdpWorld(dict(agents=('S',), mtu=mtu))
+                    goods = []
+                    for (k, what) in enumerate(pattern.split(',')):
+                        if what == 'good':
+                            data = bundle_like(90 + k, seed=k + 1)
+                            goods.append(data)
+                            world.send('S', data)
+                        else:
+                            proc = world.procs['S']
+                            world.bus_call(proc, AGENT_PATH, 'send_bundle_data', b'\x9f\xff', dict(bprm), iface=IFACE)
+                        if spacing == 'one-after-the-other':
+                            world.quiesce()
+                    world.quiesce()
+                    keys.add('%s/%s/%s/%s' % (bname, pattern, spacing, mtu))
+                    got = []
+                    per = {}
+                    try:
+                        for dg in world.net.log:
+                            for (kind, val) in decode_datagram(dg['data']):
+                                if kind == 'bundle':
+                                    got.append(val)
+                                elif kind == 'ext' and 2 in val:
+                                    per.setdefault(val[2][0], []).append((val[2][2], val[2][3]))
+                    except Exception as err:
+                        viol('datagram-undecodable', '%s: %s' % (type(err).__name__, err), case)
+                        continue
+                    for segs in per.values():
+                        got.append(b''.join(c for (_o, c) in sorted(segs)))
+                    missing = [len(g) for g in goods if g not in got]
+                    if missing:
+                        viol('ordinary-request-not-emitted-after-a-failed-one', 'bundles of %r octets never left the node (emitted: %r)'
+                             % (missing, [len(g) for g in got]), case)
+                    fin = [sg for sg in world.signals['S'] if sg[0] == 'send_bundle_finished' and sg[3] == 'success']
+                    if len(fin) < len(goods):
+                        viol('finished-signal-count', '%d ordinary requests, success signals %r' % (len(goods), fin), case)
     return dict(name=params['name'], evaluations=count, nontrivial_keys=sorted(keys), violations=violations, known=[], samples=[])
 
 
@@ -908,6 +977,7 @@ def scenarios(tier):
         name = 'sizing-%d/%d' % (part + 1, parts)
         out.append(dict(name=name, kind='enum', runner='run_sizing', params=dict(name=name, part=part, parts=parts, tier=tier), weight=50))
     out.append(dict(name='ranges', kind='enum', runner='run_ranges', params=dict(name='ranges'), weight=5))
+    out.append(dict(name='failed-request-then-good', kind='enum', runner='run_failed_request_then_good', params=dict(name='failed-request-then-good'), weight=10))
     out.append(dict(name='unusable-between', kind='enum', runner='run_unusable_between', params=dict(name='unusable-between'), weight=10))
     out.append(dict(name='conflicting-totals', kind='enum', runner='run_conflicting_totals', params=dict(name='conflicting-totals'), weight=20))
     out.append(dict(name='end-to-end', kind='enum', runner='run_end_to_end', params=dict(name='end-to-end'), weight=30))
@@ -930,7 +1000,7 @@ ASSUMPTIONS = [
     'UDP modelled as datagrams that may be reordered and duplicated; the sending agent runs under a virtual clock (pacing timer)',
     'sizing: bundle lengths 2..70, 250..262, 65535/65536 (65530..65541 thorough); a bundle of exactly the MTU may be segmented',
     'reassembly: duplicates may yield a second complete copy but never a partial or corrupt one; histories of at most 4-6 datagrams',
-    'fourteen kinds of unusable datagrams before / between / after the two segments of a transfer',
+    'nineteen kinds of unusable datagrams (one of them in front of a bundle message of the same datagram) before / between / after the two segments of a transfer; a send request that cannot be carried out among ordinary ones',
     'a transfer number used again by the same peer with another total length: every sequence of 2-5 of the five segments of the two transfers',
     'end to end: bundles of 40 ... 131073 octets through a real sender and receiver (datagrams in order / reversed), handed over as octets or as a file object positioned at 0 / 7 / its end; the popped octets are compared',
     'receive queue: four bundles (whole or in two segments, either order) and their pops in every interleaving',
